@@ -230,6 +230,16 @@ func (e fieldIDOutOfBoundsError) Error() string {
 			"field IDs must be in the range [1, 32767]", e.ID, e.Name)
 }
 
+type enumValueOutOfBoundsError struct {
+	Value int
+}
+
+func (e enumValueOutOfBoundsError) Error() string {
+	return fmt.Sprintf(
+		"enum value %v is out of bounds: "+
+			"enum values must fit in a 32-bit signed integer", e.Value)
+}
+
 type oneWayCannotReturnError struct {
 	Name string
 }
